@@ -380,8 +380,8 @@ CLEANUP:
 	{
 		/* there is a basis to write only if the solve produced one (not for an
 		 * unbounded / unsolved outcome): -b must not turn those into a failure */
-		if (writebasis && p_mpq && p_mpq->basis)
-			rval = mpq_QSwrite_basis (p_mpq, 0, writebasis);
+		if (writebasis && p_mpq && p_mpq->basis && mpq_QSwrite_basis (p_mpq, 0, writebasis))
+			rval = 1;									/* but an earlier failure stays a failure */
 	}
 	mpq_QSfree_basis (basis);
 	mpq_QSfree_prob (p_mpq);
